@@ -223,6 +223,22 @@ func c02Streams(c *Ctx) {
 				problems = append(problems, "source is not read into p exactly once")
 				return
 			}
+			if len(cp) == 0 {
+				// nothing was read: skipping the (empty) cipher call is the same thing
+				ret, _ := p.Ret.(fold.Tuple)
+				zero := false
+				if len(ret) == 2 {
+					if k, ok := ret[0].(fold.Int); ok && !k.Top && k.Lo == 0 && k.Hi == 0 {
+						zero = true
+					}
+				}
+				np, _ := mm.Load(fold.Ref{O: recv, Path: []int{L.crPos}}).(fold.Int)
+				wantE := []string{"nil", "global:io.EOF", "src-error"}[p.Chose("src.err")]
+				if !zero || np.Name != "pos" || c.errName(ret[1]) != wantE {
+					problems = append(problems, "Cipher applied 0 times although bytes were read (or the position / the source's error is not handed on)")
+				}
+				return
+			}
 			if len(cp) != 1 {
 				problems = append(problems, fmt.Sprintf("Cipher applied %d times", len(cp)))
 				return
